@@ -1,4 +1,5 @@
 import Dbus.Proofs.Endian
+import Dbus.Proofs.EditWF
 /-
   C12 — header edits keep a message valid and touch nothing else.
 
@@ -135,12 +136,87 @@ theorem padding_exact (m : Msg) : ((encodeMsg m).length - (encodeBody m).length)
 
 /-! ### edits keep a message valid
 
-  FULL STATEMENT: every header edit the API admits turns a well-formed message into a well-formed message (so that
-  `edit_roundtrip` applies unconditionally).  PROVED PART: the serial (`setSerial_keeps_valid`, hence
-  `setSerial_roundtrip`).  For field edits the statement needs the per-field preconditions of the setters (the value is a valid
-  name/path/signature of the right type, mandatory fields are not deleted, the signature field is not touched) and an
-  argument that a field struct's well-formedness does not depend on which 8-aligned offset it starts at; that part is
-  covered by the correspondence (byte-identical serialisation after every edit, and the edited bytes load) only. -/
+  Every header edit the API admits turns a well-formed message into a well-formed message, so that `edit_roundtrip`
+  applies unconditionally (`edit_keeps_valid`, `edits_keep_valid`, `edits_roundtrip`).  The preconditions are the
+  API's own (`EditOK`): a field is set to a value the setter's validity check lets through (`SetOK`: a known code other
+  than SIGNATURE and UNIX_FDS, which the library derives from the body; the value of the prescribed type with valid
+  contents), the serial is not set to 0, a deletion leaves the fields mandatory for the type, and the message stays within
+  the size limits - the one clause that an edit making a field longer can break, and that the library checks when the
+  message is sent, not when it is edited.  Removing fields needs no size hypothesis: `fieldsLen_sublist` proves that
+  the field array does not grow. -/
+
+/-- what the API's setters demand of the new field -/
+structure SetOK (e : Endian) (f : Field) : Prop where
+  known : f.code ≤ FIELD_LAST
+  not_signature : f.code ≠ FIELD_SIGNATURE
+  not_unix_fds : f.code ≠ FIELD_UNIX_FDS
+  ok : FieldOK f
+  wf : FieldWF e f
+
+/-- the message with its fields replaced is within the size limits -/
+def SizesOK (mx : Nat) (m : Msg) (fs : List Field) : Prop :=
+  fieldsLen m.endian fs ≤ MAX_ARRAY_LENGTH ∧ fieldsLen m.endian fs ≤ mx ∧
+    align8 (16 + fieldsLen m.endian fs) + (encodeBody m).length ≤ mx
+
+theorem align8_mono {a b : Nat} (h : a ≤ b) : align8 a ≤ align8 b := padLen8_mono h
+
+/-- fewer fields: still within the limits -/
+theorem sizesOK_sublist {mx fds : Nat} {m : Msg} (h : WFMsg mx fds m) {fs' : List Field} (hs : fs'.Sublist m.fields) :
+    SizesOK mx m fs' := by
+  have hle := fieldsLen_sublist m.endian hs
+  have h1 := (header_wf_fields_of _ _ _ _ _ _ _ h.header_wf).1
+  have h2 := h.falen_le
+  have h3 := h.total_le
+  have h4 : align8 (16 + fieldsLen m.endian fs') ≤ align8 (16 + fieldsLen m.endian m.fields) := align8_mono (by omega)
+  exact ⟨by omega, by omega, by omega⟩
+
+/-- a message with another field list is well-formed when the list passes the loader's checks and the sizes fit -/
+theorem wfMsg_fields {mx fds : Nat} {m : Msg} (h : WFMsg mx fds m) (fs : List Field)
+    (hsz : SizesOK mx m fs) (hwf : ∀ f ∈ fs, FieldWF m.endian f) (hck : checkFields true fs [] = true)
+    (hman : mandatoryOK m.mtype fs = true) (hsig : getField fs FIELD_SIGNATURE = getField m.fields FIELD_SIGNATURE)
+    (hfd : getField fs FIELD_UNIX_FDS = getField m.fields FIELD_UNIX_FDS) :
+    WFMsg mx fds { m with fields := fs } := by
+  refine { mtype_ne := h.mtype_ne, version_eq := h.version_eq, serial_ne := h.serial_ne, header_wf := ?_, fields_ok := hck,
+           mandatory := hman, body_types := ?_, body_wf := h.body_wf, falen_le := hsz.2.1, blen_le := h.blen_le,
+           total_le := hsz.2.2, fds_ok := ?_ }
+  · exact header_wf_fields _ _ _ _ _ _ m.fields fs h.header_wf hsz.1 hwf
+  · have := h.body_types
+    unfold bodyTypesOf at this ⊢
+    show (match getField fs FIELD_SIGNATURE with | some (.str _ s) => parseSignature s | some _ => none | none => some []) = _
+    rw [hsig]; exact this
+  · have := h.fds_ok
+    unfold unixFdsOf at this ⊢
+    show (match getField fs FIELD_UNIX_FDS with | some (.fixed _ n) => n | _ => 0) ≤ fds
+    rw [hfd]; exact this
+
+/-- **Setting a field** (first time, longer, shorter) keeps a valid message valid -/
+theorem set_keeps_valid (mx fds : Nat) (m : Msg) (f : Field) (h : WFMsg mx fds m) (hf : SetOK m.endian f)
+    (hsz : SizesOK mx m (setFieldList m.fields f)) : WFMsg mx fds (applyEdit m (.set f)) := by
+  have hold := (header_wf_fields_of _ _ _ _ _ _ _ h.header_wf).2
+  refine wfMsg_fields h _ hsz ?_ (checkFields_set _ _ h.fields_ok hf.known hf.ok) (mandatoryOK_set _ _ _ h.mandatory)
+    (set_frame _ _ _ (Ne.symm hf.not_signature)) (set_frame _ _ _ (Ne.symm hf.not_unix_fds))
+  intro g hg
+  rcases mem_setFieldList _ _ _ hg with hg | rfl
+  · exact hold g hg
+  · exact hf.wf
+
+/-- **Deleting a field** that is not mandatory for the type keeps a valid message valid -/
+theorem delete_keeps_valid (mx fds : Nat) (m : Msg) (c : Nat) (h : WFMsg mx fds m)
+    (hs : c ≠ FIELD_SIGNATURE) (hu : c ≠ FIELD_UNIX_FDS)
+    (hman : mandatoryOK m.mtype (deleteFieldList m.fields c) = true) : WFMsg mx fds (applyEdit m (.delete c)) := by
+  have hold := (header_wf_fields_of _ _ _ _ _ _ _ h.header_wf).2
+  have hsub := deleteFieldList_sublist m.fields c
+  exact wfMsg_fields h _ (sizesOK_sublist h hsub) (fun g hg => hold g (hsub.subset hg))
+    (checkFields_sublist hsub h.fields_ok) hman (delete_frame _ _ _ (Ne.symm hs)) (delete_frame _ _ _ (Ne.symm hu))
+
+/-- **Stripping unknown fields** keeps a valid message valid - no side condition at all -/
+theorem removeUnknown_keeps_valid (mx fds : Nat) (m : Msg) (h : WFMsg mx fds m) :
+    WFMsg mx fds (applyEdit m .removeUnknown) := by
+  have hold := (header_wf_fields_of _ _ _ _ _ _ _ h.header_wf).2
+  have hsub := removeUnknownList_sublist m.fields
+  exact wfMsg_fields h _ (sizesOK_sublist h hsub) (fun g hg => hold g (hsub.subset hg))
+    (checkFields_sublist hsub h.fields_ok) (by rw [mandatoryOK_removeUnknown]; exact h.mandatory)
+    (removeUnknown_frame _ _ (by decide)) (removeUnknown_frame _ _ (by decide))
 
 theorem encode_fixed_len (e : Endian) (off : Nat) (b : BTy) (n n' : Nat) :
     (encode e off (.fixed b n)).length = (encode e off (.fixed b n')).length := by
@@ -166,5 +242,48 @@ theorem setSerial_roundtrip (mx fds : Nat) (m : Msg) (n : Nat) (h : WFMsg mx fds
     loadOne true mx fds (encodeMsg (applyEdit m (.setSerial n))) =
       .ok (applyEdit m (.setSerial n)) (encodeMsg (applyEdit m (.setSerial n))).length :=
   edit_roundtrip mx fds m (.setSerial n) (setSerial_keeps_valid mx fds m n h hn hlt)
+
+/-- the API's preconditions for one edit of the message `m` -/
+def EditOK (mx : Nat) (m : Msg) : EditOp → Prop
+  | .set f => SetOK m.endian f ∧ SizesOK mx m (setFieldList m.fields f)
+  | .delete c => c ≠ FIELD_SIGNATURE ∧ c ≠ FIELD_UNIX_FDS ∧ mandatoryOK m.mtype (deleteFieldList m.fields c) = true
+  | .removeUnknown => True
+  | .setSerial n => n ≠ 0 ∧ n < 2 ^ 32
+
+/-- **One edit keeps a valid message valid.** -/
+theorem edit_keeps_valid (mx fds : Nat) (m : Msg) (op : EditOp) (h : WFMsg mx fds m) (hop : EditOK mx m op) :
+    WFMsg mx fds (applyEdit m op) := by
+  cases op with
+  | set f => exact set_keeps_valid mx fds m f h hop.1 hop.2
+  | delete c => exact delete_keeps_valid mx fds m c h hop.1 hop.2.1 hop.2.2
+  | removeUnknown => exact removeUnknown_keeps_valid mx fds m h
+  | setSerial n => exact setSerial_keeps_valid mx fds m n h hop.1 hop.2
+
+/-- every edit of the sequence meets the API's preconditions on the message as it then is -/
+def EditsOK (mx : Nat) : Msg → List EditOp → Prop
+  | _, [] => True
+  | m, op :: ops => EditOK mx m op ∧ EditsOK mx (applyEdit m op) ops
+
+/-- **Any sequence of edits keeps a valid message valid** -/
+theorem edits_keep_valid (mx fds : Nat) : ∀ (ops : List EditOp) (m : Msg), WFMsg mx fds m → EditsOK mx m ops →
+    WFMsg mx fds (ops.foldl applyEdit m)
+  | [], _, h, _ => h
+  | op :: ops, m, h, hops => edits_keep_valid mx fds ops _ (edit_keeps_valid mx fds m op h hops.1) hops.2
+
+/-- … and so the edited message serialises to bytes that load back as exactly the edited message -/
+theorem edits_roundtrip (mx fds : Nat) (ops : List EditOp) (m : Msg) (h : WFMsg mx fds m) (hops : EditsOK mx m ops) :
+    loadOne true mx fds (encodeMsg (ops.foldl applyEdit m)) =
+      .ok (ops.foldl applyEdit m) (encodeMsg (ops.foldl applyEdit m)).length := by
+  have := loadOne_encodeMsg (edits_keep_valid mx fds ops m h hops) []
+  simpa using this
+
+/-- non-vacuity of `SetOK`: a DESTINATION field `a.b` is one the setter admits -/
+example (e : Endian) : SetOK e { code := FIELD_DESTINATION, ty := .basic .str, val := .str .str [0x61, 0x2e, 0x62] } := by
+  refine ⟨by decide, by decide, by decide, ⟨by decide, fun _ => ⟨.str, rfl, rfl, by decide⟩⟩, ?_⟩
+  unfold FieldWF fieldVal
+  simp only [WFVal, WFFields, Ty.WF, Ty.DepthLax]
+  refine ⟨by simp, by unfold MAX_VALUE_DEPTH; omega, ⟨trivial, rfl, by decide, by simp⟩, ?_, trivial⟩
+  refine ⟨trivial, ⟨by decide, by decide, by decide⟩, by decide, by unfold MAX_VALUE_DEPTH; omega, trivial, rfl, by decide,
+    fun _ => (Props.C16.validateUtf8_iff _).1 (by decide +kernel), ⟨(fun h => by cases h), (fun h => by cases h)⟩⟩
 
 end Dbus.Props.C12
